@@ -266,6 +266,7 @@ class C18(Check):
     # -- build management (parent) ----------------------------------------
     _dir = None
     _owner = None
+    _intree_current = False
     _builds = None     # list of (name, module, fresh)
     _build_error = None
     _foreign = None    # selected binary that is not part of the tree under test
@@ -299,6 +300,12 @@ class C18(Check):
             # worktree an editable install may hand out /repo's binary instead)
             if mod is not None and f.startswith(os.path.realpath(REPO) + os.sep):
                 self._builds.append(("intree", mod, False))
+                # built after the last change of the source = it IS the current source (not a stale artefact)
+                try:
+                    self._intree_current = os.path.getmtime(f) >= os.path.getmtime(
+                        os.path.join(REPO, "tornado", "speedups.c"))
+                except OSError:
+                    self._intree_current = False
             else:
                 self._foreign = f
 
@@ -324,7 +331,12 @@ class C18(Check):
     def finalize(self, tier, st):
         self._cleanup()
         n = st.notes.get("intree-binary-mismatch")
-        if n and st.violations:
+        if n and getattr(self, "_intree_current", False):
+            # the binary tornado.util uses was built from the source as it stands: its wrong answers are the tree's
+            st.violation("native:in-tree-binary-wrong", "the in-tree tornado/speedups*.so (newer than speedups.c, i.e. built "
+                         "from the current source) disagrees with the definition in %d cases; e.g. %s"
+                         % (n, st.extra.get("intree_binary_mismatch_example")), {"intree": True})
+        elif n and st.violations:
             # a freshly compiled speedups.c already misbehaves in this process (it may even have damaged interpreter-wide
             # objects such as the cached one-byte bytes): the stale-binary diagnosis would only mask that violation
             st.note("intree-binary-mismatch-ignored-after-violation", n)
@@ -706,6 +718,9 @@ class C18(Check):
 
     # -- replay --------------------------------------------------------------
     def replay(self, case):
+        if case.get("intree"):
+            return ("re-run the check: the in-tree binary is compared with the definition over the whole grid "
+                    "(python run.py check C18 --tier quick)")
         fam = case.get("family")
         if fam in ("select", "select2"):
             st = Stats()
